@@ -133,6 +133,7 @@ fn reference19(t: &Tab19, call: &Call19, limit: u64) -> RefRes {
 }
 
 /// (evaluation over every offset, evaluation over the step offsets of the own demand only)
+pub const KNOWN_NONSTEP_OTHER: &str = "C07/step-offset-pruning-differs-from-every-offset-evaluation";
 pub const KNOWN_NONSTEP_IDLE: &str = "C07/maximum-at-non-step-offset-after-the-level-busy-window-ended";
 
 thread_local! {
@@ -303,6 +304,13 @@ fn check19(c: &Case19) -> CheckResult {
         // callback's level has already ended and the crate (rightly) starts over at offset 0
         if exp != exp_steps && compare(name, got, &exp_steps, limit).is_ok() && NONSTEP_ALL_AFTER_COMPLETION.with(|c| c.get()) {
             return known_or_violation(KNOWN_NONSTEP_IDLE, msg, out);
+        }
+        // any other shape of the same root cause (the search space is pruned to the step offsets of the
+        // own demand, the statement quantifies over every offset): the crate's result still has to equal
+        // the exhaustive evaluation restricted to the step offsets, so nothing a change to the crate
+        // could do is hidden by this entry
+        if exp != exp_steps && compare(name, got, &exp_steps, limit).is_ok() {
+            return known_or_violation(KNOWN_NONSTEP_OTHER, msg, out);
         }
         return Err(msg);
     }
